@@ -619,6 +619,23 @@ func TestCheck(t *testing.T) {
 		})
 	})
 
+	r.Phase("F: texts judged while a custom package-level Formatter (braces, upper case) is installed", func() {
+		old := uu.Formatter
+		defer func() { uu.Formatter = old }()
+		uu.Formatter = func(buf []byte, id uu.ID, f uu.Format) ([]byte, error) {
+			return append(buf, fmt.Sprintf("{%016X%016X}", id.Higher, id.Lower)...), nil
+		}
+		r.Serial(func(w *vkit.W) {
+			x := format(0x0123456789abcdef, 0xfedcba9876543210)
+			for _, text := range []string{x, strings.ToUpper(x), "urn:uuid:" + x, "URN:UUID:" + x, "{" + x + "}", x[:35], x + "0", strings.ReplaceAll(x, "-", ""), "", "urn:uuid:"} {
+				for _, rule := range rules {
+					judge(Case{Kind: "text", Text: vkit.B(text), Rule: rule}, w)
+					w.EvalRandom(vkit.Hash64("F", text, strconv.Itoa(rule)), true)
+				}
+			}
+		})
+	})
+
 	r.Phase(fmt.Sprintf("W: %d conventional special texts (null, nil, the nil UUID, braces, every prefix of urn:uuid:, ...) x 4 rule sets x limits", len(ref.ConventionalTexts)), func() {
 		for _, lim := range []int{0, -1, 3} {
 			restore := setLimit(lim)
